@@ -315,40 +315,42 @@ def rule_index(ctx, R, F):
     mem = int(F.macro('RANDOMX_ARGON_MEMORY')['body'])
     lanes = int(F.macro('RANDOMX_ARGON_LANES')['body'])
     sync = 4
-    seg = mem // (lanes * sync)
-    lane_len = seg * sync
     rands = [0, 1, 0xFFFF, 0x10000, 0x7FFFFFFF, 0x80000000, 0xDEADBEEF, 0xFFFFFFFF]
     n = 0
-    for pas in (0, 1, 2):
-        for sl_ in range(sync):
-            idxs = [2, 3, 100, seg - 1] if (pas == 0 and sl_ == 0) else [0, 1, 2, 100, seg - 1]
-            for idx in idxs:
-                for same in (1, 0):
-                    if same == 0 and lanes == 1 and False:
-                        continue
-                    for j1 in rands:
-                        if pas == 0:
-                            area = (idx - 1) if sl_ == 0 else (sl_ * seg + idx - 1 if same else sl_ * seg + (-1 if idx == 0 else 0))
-                        else:
-                            area = lane_len - seg + idx - 1 if same else lane_len - seg + (-1 if idx == 0 else 0)
-                        if area <= 0:
-                            continue
-                        x = (j1 * j1) >> 32
-                        rel = area - 1 - ((area * x) >> 32)
-                        start = 0 if pas == 0 else (0 if sl_ == sync - 1 else (sl_ + 1) * seg)
-                        want = (start + rel) % lane_len
-                        env = {ps[2]['id']: KB.const(32, j1), ps[3]['id']: KB.const(32, same),
-                               '%s->pass' % pos: KB.const(32, pas), '%s->slice' % pos: KB.const(8, sl_), '%s->index' % pos: KB.const(32, idx), '%s->lane' % pos: KB.const(32, 0),
-                               '%s->segment_length' % inst: KB.const(32, seg), '%s->lane_length' % inst: KB.const(32, lane_len), '%s->lanes' % inst: KB.const(32, lanes), '%s->memory_blocks' % inst: KB.const(32, mem)}
-                        r = KBEval(F, env).run_body(f)
-                        v = r.value() if r is not None else None
-                        n += 1
-                        if v is None:
-                            raise AnalysisBroken('A2-INDEX: the evaluator cannot follow index_alpha for pass %d slice %d index %d' % (pas, sl_, idx))
-                        if v != want or (n % 8 == 1):
-                            R.check(v == want, 'pass %d slice %d index %d %s lane J1=%#x' % (pas, sl_, idx, 'same' if same else 'other', j1), where, expected=want, found=v)
-                        else:
-                            R.ok('pass %d slice %d index %d %s lane J1=%#x' % (pas, sl_, idx, 'same' if same else 'other', j1), where)
+    # the configured geometry and two reduced instances whose lane length is not a power of two (the function is shared by every instance the fill entry points accept)
+    for mem_ in (mem, 24, 1000):
+      seg = mem_ // (lanes * sync)
+      lane_len = seg * sync
+      for pas in (0, 1, 2):
+          for sl_ in range(sync):
+              idxs = [2, 3, 100, seg - 1] if (pas == 0 and sl_ == 0) else [0, 1, 2, 100, seg - 1]
+              for idx in idxs:
+                  for same in (1, 0):
+                      if same == 0 and lanes == 1 and False:
+                          continue
+                      for j1 in rands:
+                          if pas == 0:
+                              area = (idx - 1) if sl_ == 0 else (sl_ * seg + idx - 1 if same else sl_ * seg + (-1 if idx == 0 else 0))
+                          else:
+                              area = lane_len - seg + idx - 1 if same else lane_len - seg + (-1 if idx == 0 else 0)
+                          if area <= 0:
+                              continue
+                          x = (j1 * j1) >> 32
+                          rel = area - 1 - ((area * x) >> 32)
+                          start = 0 if pas == 0 else (0 if sl_ == sync - 1 else (sl_ + 1) * seg)
+                          want = (start + rel) % lane_len
+                          env = {ps[2]['id']: KB.const(32, j1), ps[3]['id']: KB.const(32, same),
+                                 '%s->pass' % pos: KB.const(32, pas), '%s->slice' % pos: KB.const(8, sl_), '%s->index' % pos: KB.const(32, idx), '%s->lane' % pos: KB.const(32, 0),
+                                 '%s->segment_length' % inst: KB.const(32, seg), '%s->lane_length' % inst: KB.const(32, lane_len), '%s->lanes' % inst: KB.const(32, lanes), '%s->memory_blocks' % inst: KB.const(32, mem_)}
+                          r = KBEval(F, env).run_body(f)
+                          v = r.value() if r is not None else None
+                          n += 1
+                          if v is None:
+                              raise AnalysisBroken('A2-INDEX: the evaluator cannot follow index_alpha for pass %d slice %d index %d' % (pas, sl_, idx))
+                          if v != want or (n % 8 == 1):
+                              R.check(v == want, '%d blocks: pass %d slice %d index %d %s lane J1=%#x' % (mem_, pas, sl_, idx, 'same' if same else 'other', j1), where, expected=want, found=v)
+                          else:
+                              R.ok('%d blocks: pass %d slice %d index %d %s lane J1=%#x' % (mem_, pas, sl_, idx, 'same' if same else 'other', j1), where)
     if n < 400:
         raise AnalysisBroken('A2-INDEX: only %d cases' % n)
 
